@@ -231,8 +231,10 @@ Buffer_push_bytes(BufferObject *self, PyObject *args)
 
     CHECK_WRITE_BOUNDS(self, data_len)
 
-    memcpy(self->pos, data, data_len);
-    self->pos += data_len;
+    if (data_len > 0) {
+        memcpy(self->pos, data, data_len);
+        self->pos += data_len;
+    }
     Py_RETURN_NONE;
 }
 
